@@ -634,7 +634,7 @@ impl Check for C08 {
         }
     }
     fn rule(&self) -> String {
-        "each evaluation = one generated network (3-16 vertices) with an energy traversal model over the bundled random-forest models (ICE Camry, BEV Bolt, PHEV Volt depleting+sustaining; raw or interpolated; optional real-world adjustment; battery 0.5-60 kWh), 1-3 vehicles each with its own prediction cache of 1/2/3/8/1000 entries or none, speeds and grades snapped to a grid on which the cache key (precision 0-2 / 2-4 decimals) is injective; a batch of 2-24 queries (vehicle, starting charge incl. 0, tiny and out-of-range values) on a simulated pool of 1-6 workers sharing the caches, under a seeded schedule (family dense: preemption at every allocation). Compared with the same queries on a cache-less application run alone, and edge by edge with the uncached model. distinct = distinct (batch, cache configuration, schedule hash). Unit configurations per world: speed table km/h / mph / m/s, grade table decimal / percent / millis, energy model miles / km / m and minutes / hours / seconds, time-model outputs likewise Round 6: the speed / grade units a vehicle model is declared to take its inputs in vary per vehicle (two vehicles may share one model file and type with different units); the raw models of the oracle are built by their own constructor, not through the application loading function; family load = the application (speed and grade tables among the rest) is built inside the explored phase under short reads; two caller threads share the application in a quarter of the runs. Round 7: after each build every vehicle is asked for its best-case estimate between the first and the last vertex (two builds of one configuration must agree), and the ideal-rate sweep is called on a stub model with one narrow minimum in the quiet phase and under clock jumps; family load also builds under clock jumps.".into()
+        "each evaluation = one generated network (3-16 vertices) with an energy traversal model over the bundled random-forest models (ICE Camry, BEV Bolt, PHEV Volt depleting+sustaining; raw or interpolated; optional real-world adjustment; battery 0.5-60 kWh), 1-3 vehicles each with its own prediction cache of 1/2/3/8/1000 entries or none, speeds and grades snapped to a grid on which the cache key (precision 0-2 / 2-4 decimals) is injective; a batch of 2-24 queries (vehicle, starting charge incl. 0, tiny and out-of-range values) on a simulated pool of 1-6 workers sharing the caches, under a seeded schedule (family dense: preemption at every allocation). Compared with the same queries on a cache-less application run alone, and edge by edge with the uncached model. distinct = distinct (batch, cache configuration, schedule hash). Unit configurations per world: speed table km/h / mph / m/s, grade table decimal / percent / millis, energy model miles / km / m and minutes / hours / seconds, time-model outputs likewise Round 6: the speed / grade units a vehicle model is declared to take its inputs in vary per vehicle (two vehicles may share one model file and type with different units); the raw models of the oracle are built by their own constructor, not through the application loading function; family load = the application (speed and grade tables among the rest) is built inside the explored phase under short reads; two caller threads share the application in a quarter of the runs. Round 7: after each build every vehicle is asked for its best-case estimate between the first and the last vertex (two builds of one configuration must agree), and the ideal-rate sweep is called on a stub model with one narrow minimum in the quiet phase and under clock jumps; family load also builds under clock jumps. Rounds 8-9: flat roads (grade exactly zero on a share of the edges); interpolation grids of 5 x 3 to 128 x 64 cells; in family load the application may be built from inside the worker pool (the reference inside a pool of one); a second best-case estimate on the search instance that has just answered one is compared with a fresh instance's.".into()
     }
     fn assumptions(&self) -> Vec<String> {
         vec![
